@@ -148,6 +148,17 @@ def generate(repo, outdir):
     r = one(classify_calls(fb, "represent_integer_non_diag", rel + ":fixed_degree_isogeny"), rel, "represent_integer_non_diag")
     if r[0] != "used":
         raise Unsupported(rel + ": represent_integer_non_diag result not used in fixed_degree_isogeny")
+    # range guard of fixed_degree_isogeny: exactly the three disjuncts, failure exit, before any use of `length`
+    nb = re.sub(r"\s+", "", fb)
+    want = {"length+2>(int)TORSION_PLUS_EVEN_POWER",
+            "(int)TORSION_PLUS_EVEN_POWER-length>=(int)(sizeof(strategies)/sizeof(strategies[0]))",
+            "u_bitsize>length"}
+    flags["fixedDegGuard"] = False
+    for m in re.finditer(r"if\(([^{};]*)\)\{return0;\}", nb):
+        if set(m.group(1).split("||")) == want:
+            first_use = min(x for x in (nb.find("strategies["), nb.find("ec_dbl_iter("), nb.find("ibz_pow(&two_pow")) if x >= 0)
+            flags["fixedDegGuard"] = m.start() < first_use
+            break
     exact = ["two_adic_valuation" not in body]
     # --- id2iso.c : sampling_random_ideal_O0
     txt, rel = load("id2iso/ref/id2isox/id2iso.c")
@@ -205,7 +216,7 @@ def generate(repo, outdir):
         raise Unsupported("tools.c: body of two_adic_valuation changed (model tavLoop must be revisited)")
     # sample_response retry budgets (constants of the loops)
     order = ["clapotisFu", "clapotisFv", "sampleIdeal", "dim2Commit", "dim2Aux", "dim2AuxIdeal", "dim2Guard", "dim2Keygen",
-             "heurCommit", "heurAux", "heurAuxIdeal", "heurGuard", "heurKeygen", "hdCommit", "hdKeygen", "exactValuation"]
+             "heurCommit", "heurAux", "heurAuxIdeal", "heurGuard", "heurKeygen", "hdCommit", "hdKeygen", "exactValuation", "fixedDegGuard"]
     lines = ["/- GENERATED by tools/translate/signflow.py from /repo — do not edit.",
              "   Control-flow shape of keygen / sign: which call sites use the result of a fallible step. -/",
              "namespace SqiGen.SignFlow"]
